@@ -784,8 +784,9 @@ func (s *Server) Invoke(responseWriter http.ResponseWriter, invoke *interop.Invo
 	case err = <-releaseErrChan:
 		log.Debug("Invoke() release error")
 	case <-releaseSuccessChan:
+		// AwaitRelease() has released the reservation (or a reset has): releasing here once more would cancel the
+		// reservation of a caller that was accepted in between
 		vhook.At("invoke.released")
-		s.Release()
 		log.Debug("Invoke() success")
 	}
 
